@@ -338,8 +338,25 @@ def r5_units_and_positions(ctx):
     ctx.touch(j)
     seps = [c for c in j.calls() if (c.callee or "").endswith("push_str") and sh(ne(j.deep(c.args[1]))) == "sep"]
     for c in seps:
-        guards = [(j.switch_info(S), sh(ne(j.deep(j.blocks[S]["t"]["d"]))) + " /* " + sh(ne(j.expr(j.blocks[S]["t"]["d"], 4))) + " */", al) for S, al in j.constraints(c.block)]
+        cons_ = list(j.constraints(c.block))
+        guards = [(j.switch_info(S), sh(ne(j.deep(j.blocks[S]["t"]["d"]))) + " /* " + sh(ne(j.expr(j.blocks[S]["t"]["d"], 4))) + " */", al) for S, al in cons_]
         pos = [g for g in guards if g[0]["kind"] == "bin" and re.search(r"enumerate\(.*\)@Some\.0\.0", g[1]) and re.match(r"^(Gt|Ne|Ge)\(.*,(0|1)\) /\*", g[1])]
+        # position kept in a flag: `let mut first = true; for .. { if first { first = false } else { push(sep) } }` - true
+        # before the loop, lowered on the very branch that finds it true, the separator on the other branch: "not the first
+        # element", whatever the elements render as
+        for gi_, (S, al) in enumerate(cons_):
+            si = j.switch_info(S)
+            L = si.get("local") if si["kind"] == "multi" else (si["place"]["l"] if si["kind"] == "place" and not si["place"]["p"] else None)
+            if L is None or "bool" not in j.locals[L]["ty"] or list(al) != [0]:
+                continue
+            defs = j.whole_defs(L)
+            const = [(b_, st["rv"]["a"].get("int")) for (b_, k, st) in defs if k != "t" and st["rv"]["k"] == "use" and isinstance(st["rv"]["a"], dict) and st["rv"]["a"].get("int") in (0, 1)]
+            ones = [b_ for b_, v in const if v == 1]
+            zeros = [b_ for b_, v in const if v == 0]
+            true_tgts = [t_ for lab, t_ in j.succ[S] if lab != 0]
+            if len(const) == len(defs) and len(ones) == 1 and zeros and ones[0] not in j.reach_from_succ(ones[0]) and j.dominates(ones[0], S) \
+                    and true_tgts and all(t_ in zeros for t_ in true_tgts):
+                pos.append(guards[gi_])
         other = [g for g in guards if g[0]["kind"] in ("bin", "call", "un", "multi", "place") and g not in pos]
         state = [g for g in other if "buffer" in g[1] or "len(" in g[1] and "sep" not in g[1] and "array" not in g[1]]
         if pos and not other:
